@@ -2,7 +2,8 @@
 import re
 from engines import PanicScan, parse_bytestr, decode_format_template, endian_sites
 
-CLAIM = ("(PANIC) no panicking construct (slice/str indexing, unwrap/expect, assert, explicit panic) is reachable from "
+CLAIM = ("(ROLE) the text handed to the number parser is a plain sub-slice of the input (no trim / case / replace / strip / split step) and is parsed as u32; "
+         "(PANIC) no panicking construct (slice/str indexing, unwrap/expect, assert, explicit panic) is reachable from "
          "`impl TryFrom<&str> for HpoTermId`; (TABLE) the literal prefix rendered by `Display for HpoTermId` is 'HP:' with a "
          "zero-padded width of 7 and its byte length equals the slice offset used by the parser and the parser's minimum-length "
          "pre-check minus one; byte conversions of ids use the big-endian pair only.")
@@ -115,3 +116,25 @@ def run(ck, prog, ctx):
         ck.violation("TABLE", "endian/%s/%s" % (b.short, t.callee.method), "non-big-endian byte conversion %s" % t.callee.def_args, where=b.where(t.line))
     ck.ob("TABLE", "endian/all", not bad, "%d int<->bytes conversion sites in production code, %d not big-endian" % (len(alls), len(bad)))
     ck.floor("TABLE", "endian conversion sites", len(alls), 20)
+
+    # ---------------- ROLE: what is handed to the number parser is the caller's text from the prefix offset on, unmodified
+    ck.rule("ROLE", "the text parsed as the number is a plain sub-slice of the input: no normalising str method (trim*, to_*case, replace, strip_*, split*) on the way (DESIGN 3.4)")
+    if tf is not None:
+        from prov import Prov
+        pv = Prov(prog, inline=False)
+        STR_OK = {"get", "get_unchecked", "index", "as_ref", "as_str", "borrow", "deref"}
+        parses = [(bi, t) for fb in prog.family(tf) for bi, t in fb.calls() if t.callee.method in ("parse", "from_str", "from_str_radix") and "str" in (t.callee.name or "")]
+        if not parses:
+            ck.undecided("ROLE", "parse/input", "no str::parse / from_str call found in TryFrom<&str>", where=tf.where())
+        for bi, t in parses:
+            at = pv.of_operand(tf, t.args[0])
+            steps = sorted({a[1].rsplit("::", 1)[-1].split("::<")[0] for a in at if a[0] == "call" and re.search(r"core::str::<impl str>::|alloc::str::<impl str>::|std::string::String::", a[1])})
+            bad = [m for m in steps if re.sub(r"<.*$", "", m) not in STR_OK]
+            from_param = any(a[0] == "param" and a[2] == 1 for a in at)
+            radix_ok = t.callee.method != "from_str_radix" or (len(t.args) > 1 and t.args[1].int_value() == 10)
+            ty = re.search(r"parse::<(\w+)>", t.callee.def_args or "") or re.search(r"<impl (\w+)>::from_str", t.callee.def_args or "")
+            if ty is not None:
+                ck.ob("ROLE", "parse/type", ty.group(1) == "u32", "the number is parsed as %s (expected u32: an unsigned 32-bit decimal number, nothing wider or signed)" % ty.group(1), where=tf.where(t.line))
+            ck.ob("ROLE", "parse/input", from_param and not bad and radix_ok,
+                  "the number is parsed from %s%s" % ("a sub-slice of the input text" if from_param and not bad else "the input after `%s`: text that is not 'HP:' + a decimal number (e.g. with trailing white space) is accepted" % (bad[0] if bad else "?"), "" if radix_ok else " with a radix other than 10"),
+                  where=tf.where(t.line))
